@@ -1,6 +1,6 @@
 (* C15 — rates posted to the oracle are the post-transaction rates; the oracle is optional. *)
 From MW Require Import Staking.
-From MW.Proofs Require Import Tactics Handlers Oracle.
+From MW.Proofs Require Import OracleOptional Tactics Handlers Oracle.
 Open Scope N_scope.
 
 (* rates as 18-decimal fixed point: redemption = floor(N*10^18/L), purchase = floor(L*10^18/N); (0,0) when L = 0 *)
@@ -45,12 +45,15 @@ Theorem C15_no_oracle_no_post : forall s e, pc_oracle (protocol (cfg s)) = None 
 Proof. exact oracle_msgs_none. Qed.
 Print Assumptions C15_no_oracle_no_post.
 
-(* C15_oracle_optional_partial: "the same operations succeed with identical effects" is carried by the
-   inversion lemmas of Proofs/Handlers.v — every component of the returned store and every non-oracle
-   message is given by a formula that does not mention the oracle address — together with
-   C15_no_oracle_no_post; the converse direction (success with an oracle implies success without) is
-   not yet stated as one theorem and is covered by the correspondence runs (30% of histories run
-   without an oracle). *)
+(* oracle optional: whatever succeeds with an oracle configured succeeds on the same store without one, with the same
+   resulting store (less the oracle address) and the same messages except the oracle post. The only message excluded is
+   an UpdateConfig that carries a protocol section, i.e. the message that sets the oracle address itself. *)
+Theorem C15_oracle_optional : forall va dv av s e i m s' r,
+  sets_protocol m = false ->
+  execute va dv av s e i m = Ok (s', r) ->
+  execute va dv av (drop s) e i m = Ok (drop s', non_oracle r).
+Proof. exact oracle_optional. Qed.
+Print Assumptions C15_oracle_optional.
 
 Example C15_example_first_stake :
   get_rates {| total_native := 1000; total_lst := 1000; total_reward := 0; total_fees := 0; pending_owner := None; owner_min_time := None |}
